@@ -144,8 +144,23 @@ impl Prop for C08 {
         tier.pick(60_000, 3_000_000)
     }
     fn strategy(&self, _tier: Tier) -> BoxedStrategy<Case> {
-        let n = ReqSpec::canonical().len() as u8;
-        (0..n)
+        // pick the reply kind uniformly, then one of its operations
+        let ops = ReqSpec::canonical();
+        let by_kind = |k: ReplyKind| -> Vec<u8> {
+            ops.iter()
+                .enumerate()
+                .filter(|(_, o)| o.reply_kind() == k)
+                .map(|(i, _)| i as u8)
+                .collect()
+        };
+        let kinds = [
+            by_kind(ReplyKind::Empty),
+            by_kind(ReplyKind::Data),
+            by_kind(ReplyKind::Bare),
+            by_kind(ReplyKind::Load),
+        ];
+        (0usize..4, any::<u16>())
+            .prop_map(move |(k, i)| kinds[k][crate::core::pick_idx(i, kinds[k].len())])
             .prop_flat_map(|op| {
                 let kind = ReqSpec::canonical()[op as usize].reply_kind();
                 (Just(op), items_strategy(kind), any::<bool>())
